@@ -245,7 +245,7 @@ Section Power.
       exists (if (a <? 0) && ((- A) ^ (b + 1) =? - 2 ^ V) then b + 1 else b).
       split; [| now apply final_spec].
       etransitivity; [| etransitivity; [exact Eq |]].
-      + reflexivity.
+      + timeout 30 reflexivity.
       + unfold K. destruct Hbr as (Hb0 & _). rewrite !py_pow_ok by lia. cbn [bind].
         destruct (a <? 0); cbn [bind andb]; [destruct ((- A) ^ (b + 1) =? - 2 ^ V); reflexivity | reflexivity].
   Qed.
@@ -415,7 +415,7 @@ Section Base.
     exists (if sg then (if (R + 1) ^ b =? 2 ^ V then - (R + 1) else - R) else 0), R.
     split; [| apply base_final_spec].
     etransitivity; [| etransitivity; [exact Eq |]].
-    - reflexivity.
+    - timeout 30 reflexivity.
     - unfold K. rewrite !py_pow_ok by lia. cbn [bind].
       destruct sg; cbn [negb]; [destruct ((R + 1) ^ b =? 2 ^ V); reflexivity | reflexivity].
   Qed.
